@@ -82,7 +82,63 @@ def main(tier, only=None):
     if not only:
         from . import conform
         conform.run(rep, 'C12', thorough, families=('topn',))
+        ordered_scan_probes(rep, thorough)
     return rep.finish()
+
+
+def ordered_scan_probes(rep, thorough):
+    """Concrete probe of the storage contract the planner relies on ("a disk scan that includes the primary key returns
+    rows in key order", the row-set merge is async code outside the solver engines): the key column in every position of
+    a three-column table, 1-4 row-sets with interleaved keys, every select list that contains the key; ORDER BY key (the
+    planner drops the sort), DESC, with LIMIT / OFFSET, and GROUP BY key ORDER BY key, each against the order computed here."""
+    import itertools, shutil
+    from vlib.common import rl, scratch_dir
+    n = ok = 0
+    seen = set()
+    for pkpos in (0, 1, 2):
+        cols = ['c0', 'c1', 'c2']
+        ddl = 'create table t(%s)' % ', '.join('%s int%s' % (c, ' primary key' if i == pkpos else '') for i, c in enumerate(cols))
+        key = cols[pkpos]
+        for nsets in ((1, 2, 3, 4) if thorough else (2, 3)):
+            keys = list(range(12))
+            parts = [keys[i::nsets] for i in range(nsets)]
+            rows = {k: [k if i == pkpos else (100 - k if i == (pkpos + 1) % 3 else k % 4) for i in range(3)] for k in keys}
+            stmts = [ddl, 'create table zz_verif_dummy(z int)'] + ['insert into t values ' + ', '.join('(%s)' % ', '.join(map(str, rows[k])) for k in p_) for p_ in parts]
+            stmts.append('set mock_rowcount_zz_verif_dummy = 1')
+            qs = []
+            lists = [l for r_ in (1, 2, 3) for l in itertools.permutations(cols, r_) if key in l]
+            for sel in lists:
+                ix = [cols.index(c) for c in sel]
+                full = [[str(rows[k][i]) for i in ix] for k in sorted(keys)]
+                qs.append(('select %s from t order by %s' % (', '.join(sel), key), full))
+                qs.append(('select %s from t order by %s desc' % (', '.join(sel), key), full[::-1]))
+                qs.append(('select %s from t order by %s limit 4 offset 3' % (', '.join(sel), key), full[3:7]))
+            cnt = [[str(k), '1'] for k in sorted(keys)]
+            qs.append(('select %s, count(*) from t group by %s order by %s' % (key, key, key), cnt))
+            d = scratch_dir('c12scan')
+            out, rc, err = rl('sql', {'engine': 'disk', 'dir': d, 'block': 4096, 'rowset': 1 << 20, 'stmts': stmts + [q for q, _ in qs]}, timeout=300)
+            shutil.rmtree(d, ignore_errors=True)
+            res = {o['sql']: o for o in out if 'sql' in o}
+            for q, exp in qs:
+                o = res.get(q)
+                if o is None:
+                    rep.fail_inconclusive('ordered-scan probe did not run: %s' % err[-200:])
+                    break
+                n += 1
+                got = o['rows'] if o.get('ok') and not o.get('panicked') else ('panic' if o.get('panicked') else o.get('err'))
+                if got == exp:
+                    ok += 1
+                    continue
+                k_ = 'storage:ordered-scan:key-column-%d:%s' % (pkpos, 'key-only' if q.startswith('select %s from' % key) else 'with-other-columns')
+                if k_ in seen:
+                    continue
+                seen.add(k_)
+                what = 'with the primary key in column %d and %d row-sets on disk, `%s` returns %s, expected %s' % (pkpos, nsets, q, json.dumps(got)[:160], json.dumps(exp)[:160])
+                outc = rep.counterexample(k_, what[:600], {'stmts': stmts + [q], 'got': got, 'expected': exp}, True)
+                rep.obligation(outc == 'known')
+    if n and n == ok:
+        rep.obligation(True)
+    rep.cov['ordered_scan_probes'] = {'queries_compared': n, 'agreeing': ok, 'note': 'key column in every position, 2-3 (thorough 1-4) interleaved row-sets, every select list holding the key; concrete probes of the storage contract'}
 
 
 def replay(path):
